@@ -16,6 +16,7 @@ STD_ENUMS = {
     'TryRecvError': ['Empty', 'Disconnected'],
     'RecvTimeoutError': ['Timeout', 'Disconnected'],
     'Infallible': [],
+    'SeekFrom': ['Start', 'End', 'Current'],
 }
 
 
